@@ -69,6 +69,12 @@ func (sm *ServerManager) CtrlStartRelayPull(info base.ApiCtrlStartRelayPullReq) 
 		streamName = ctx.LastItemOfPath
 	}
 
+	if err := checkInStreamName(streamName); err != nil {
+		ret.ErrorCode = base.ErrorCodeStartRelayPullFail
+		ret.Desp = err.Error()
+		return
+	}
+
 	// 注意，如果group不存在，我们依然relay pull
 	g := sm.getOrCreateGroup("", streamName)
 
@@ -149,6 +155,12 @@ func (sm *ServerManager) CtrlAddIpBlacklist(info base.ApiCtrlAddIpBlacklistReq) 
 func (sm *ServerManager) CtrlStartRtpPub(info base.ApiCtrlStartRtpPubReq) (ret base.ApiCtrlStartRtpPubResp) {
 	sm.mutex.Lock()
 	defer sm.mutex.Unlock()
+
+	if err := checkInStreamName(info.StreamName); err != nil {
+		ret.ErrorCode = base.ErrorCodeParamMissing
+		ret.Desp = err.Error()
+		return
+	}
 
 	// 注意，如果group不存在，我们依然relay pull
 	g := sm.getOrCreateGroup("", info.StreamName)
